@@ -335,3 +335,23 @@ package nasConvert
 //@   ensures implies(len(guti) == 20 && Dig5(guti) && IsDig(guti[5]) && forall(i, 6, 20, IsLowHex(guti[i])), err == nil && len(s) == 20 && forall(j, 0, 20, s[j] == guti[j]))
 //@   ensures implies(len(guti) != 19 && len(guti) != 20, err != nil)
 //@ end
+
+// AmfIdToNas: the logging wrapper returns the fields for valid text and zeros otherwise.
+//@ func AmfIdToNas(amfId) (amfRegionId, amfSetId, amfPointer)
+//@   lencase amfId 6
+//@   assigns nothing
+//@   ensures implies(len(amfId) != 6, amfRegionId == 0 && amfSetId == 0 && amfPointer == 0)
+//@   ensures implies(len(amfId) == 6 && !AllHex6(amfId, 0), amfRegionId == 0 && amfSetId == 0 && amfPointer == 0)
+//@   ensures implies(len(amfId) == 6 && AllHex6(amfId, 0), amfRegionId == (HexV(amfId[0]) << 4) | HexV(amfId[1]))
+//@   ensures implies(len(amfId) == 6 && AllHex6(amfId, 0), amfSetId == (uint16(HexV(amfId[2])) << 6) | (uint16(HexV(amfId[3])) << 2) | (uint16(HexV(amfId[4])) >> 2))
+//@   ensures implies(len(amfId) == 6 && AllHex6(amfId, 0), amfPointer == ((HexV(amfId[4]) & 3) << 4) | HexV(amfId[5]))
+//@ end
+
+// Universal time and local time zone (TS 24.008 10.5.3.9): the seven octets are semi-octet swapped BCD; the
+// arguments handed to time.Date / time.FixedZone are the decoded fields (time.Date itself is trusted).
+//@ define Bcd(x) := (int((x) & 15) * 10 + int((x) >> 4))
+//@ func DecodeUniversalTimeAndLocalTimeZone(nasUniversalTimeAndLocalTimeZone) (t)
+//@   ensures year == 2000 + Bcd(nasUniversalTimeAndLocalTimeZone.Octet[0]) && month == Bcd(nasUniversalTimeAndLocalTimeZone.Octet[1]) && day == Bcd(nasUniversalTimeAndLocalTimeZone.Octet[2])
+//@   ensures hour == Bcd(nasUniversalTimeAndLocalTimeZone.Octet[3]) && minute == Bcd(nasUniversalTimeAndLocalTimeZone.Octet[4]) && second == Bcd(nasUniversalTimeAndLocalTimeZone.Octet[5])
+//@   ensures offset == spec.TimeZoneSeconds(nasUniversalTimeAndLocalTimeZone.Octet[6])
+//@ end
